@@ -32,6 +32,10 @@ pub struct Case {
     /// the source's); after clone_from it must be indistinguishable from the source all the same
     #[serde(default)]
     pub dirt_period_delta: usize,
+    /// inputs fed to a predecessor — an instance with the same parameters that is created and dropped on this
+    /// thread before the original is built (state keyed by buffer address or kept per thread outlives it)
+    #[serde(default)]
+    pub predecessor: Vec<Inp>,
     pub ops: Vec<COp>,
     /// the clone is taken just before ops[clone_at]
     pub clone_at: usize,
@@ -44,6 +48,14 @@ fn fresh(cfg: &Cfg) -> Result<Ind, Failure> {
 pub fn check(c: &Case, ctx: &mut Ctx) -> Result<(), Failure> {
     let name = c.cfg.kind.name();
     let ocfg = c.other.clone().unwrap_or_else(|| c.cfg.clone());
+    if !c.predecessor.is_empty() {
+        let mut pred = fresh(&c.cfg)?;
+        for inp in &c.predecessor {
+            feed(&mut pred, inp);
+        }
+        drop(pred);
+        ctx.label("predecessor_dropped_before");
+    }
     let mut orig = fresh(&c.cfg)?;
     let mut other = fresh(&ocfg)?;
     let mut clone: Option<Ind> = None;
@@ -198,7 +210,7 @@ fn strategy(cap: usize, maxops: usize) -> BoxedStrategy<Case> {
         .prop_map(|(cfg, pre, post, other, th, clone_from_dirt, dirt_period_delta)| {
             let clone_at = pre.len();
             let ops = pre.into_iter().chain(post).map(|(target, inp)| COp { target, inp }).collect();
-            Case { cfg, other: Some(other), replay_in_new_thread: th, clone_from_dirt, dirt_period_delta, ops, clone_at }
+            Case { cfg, other: Some(other), replay_in_new_thread: th, clone_from_dirt, dirt_period_delta, predecessor: vec![], ops, clone_at }
         })
         .boxed()
 }
@@ -335,7 +347,7 @@ pub fn run(g: &mut Global) {
             let clone_at = (j % (l as u64 + 1)) as usize;
             let d = digits(j / (l as u64 + 1), 6, l);
             let ops = d.iter().map(|&x| COp { target: (x / 3) as u8, inp: letter(EALPHA[x % 3]) }).collect();
-            Case { cfg: cfg_small(kind, n), other: None, replay_in_new_thread: false, clone_from_dirt: if i % 2 == 0 { vec![] } else { vec![letter(7.0), letter(2.0), letter(9.0)] }, dirt_period_delta: (i % 3) as usize, ops, clone_at }
+            Case { cfg: cfg_small(kind, n), other: None, replay_in_new_thread: false, clone_from_dirt: if i % 2 == 0 { vec![] } else { vec![letter(7.0), letter(2.0), letter(9.0)] }, dirt_period_delta: (i % 3) as usize, predecessor: vec![], ops, clone_at }
         },
         &check,
     );
@@ -381,7 +393,68 @@ pub fn run(g: &mut Global) {
             // an empty dirt list would mean plain clone(): keep clone_from by feeding then resetting nothing — use
             // a one-element history instead (the empty target is covered by the enum stage)
             let dirt: Vec<Inp> = if dirt.is_empty() { vec![letter(2.0)] } else { dirt.iter().map(|&x| letter(vals[x])).collect() };
-            Case { cfg: cfg_small(kind, n), other: None, replay_in_new_thread: false, clone_from_dirt: dirt, dirt_period_delta: delta, ops, clone_at }
+            Case { cfg: cfg_small(kind, n), other: None, replay_in_new_thread: false, clone_from_dirt: dirt, dirt_period_delta: delta, predecessor: vec![], ops, clone_at }
+        },
+        &check,
+    );
+    // a predecessor with the same parameters that dies in the middle of a strictly monotone run, then the original
+    // continues that run from its first input (replayed on a fresh thread): nothing the predecessor did may be
+    // inherited through a recycled buffer address or a per-thread table
+    let seedp = g.seed;
+    g.exhaustive(
+        "predecessor_trend",
+        22 * 6 * 2 * 8,
+        &move |i| {
+            let rep = i % 8;
+            let r = i / 8;
+            let up = r % 2 == 0;
+            let r = r / 2;
+            let n = [3usize, 16, 17, 33, 64, 100][(r % 6) as usize];
+            let kind: Kind = ALL_KINDS[(r / 6) as usize];
+            let mut st = seedp ^ (i + 23).wrapping_mul(0x9E3779B97F4A7C15);
+            let step = |t: usize| if up { 100.0 + t as f64 * 0.5 } else { 5000.0 - t as f64 * 0.5 };
+            let plen = n + 5 + (rep as usize) * 3;
+            let predecessor: Vec<Inp> = (0..plen).map(|t| letter(step(t))).collect();
+            let mut ops: Vec<COp> = (0..2 * n + 6).map(|t| COp { target: 0, inp: letter(step(plen + t) + 0.001 * unit(&mut st)) }).collect();
+            let clone_at = n + 2;
+            for t in 0..n + 2 {
+                ops.push(COp { target: (t % 2) as u8, inp: letter(step(plen + 2 * n + 6 + t)) });
+            }
+            Case { cfg: cfg_small(kind, n), other: None, replay_in_new_thread: true, clone_from_dirt: vec![], dirt_period_delta: 0, predecessor, ops, clone_at }
+        },
+        &check,
+    );
+    // an instance of another kind with the same period fed the same input immediately before (or after) the
+    // original at every step, in lock-step: a value handed from one indicator to "the next one that matches"
+    // through a per-thread slot reaches the wrong instance
+    g.exhaustive(
+        "lockstep_other_kind",
+        22 * 22 * 3 * 2 * 2,
+        &move |i| {
+            let before = i % 2 == 0;
+            let r = i / 2;
+            let fam = r % 2;
+            let r = r / 2;
+            let n = [2usize, 5, 14][(r % 3) as usize];
+            let r = r / 3;
+            let kind: Kind = ALL_KINDS[(r % 22) as usize];
+            let okind: Kind = ALL_KINDS[(r / 22) as usize];
+            let mut st = seedp ^ (i + 57).wrapping_mul(0x9E3779B97F4A7C15);
+            let mut ops: Vec<COp> = Vec::with_capacity(8 * n + 24);
+            let len = 4 * n + 12;
+            for t in 0..len {
+                let v = if fam == 0 { 20.0 + (splitmix(&mut st) % 9) as f64 * 0.25 } else { 50.0 + 40.0 * unit(&mut st) };
+                let inp = if t % 3 == 0 { letter_bar(v) } else { letter(v) };
+                let tgt = if t >= 2 * n + 3 && t % 2 == 1 { 1u8 } else { 0u8 };
+                if before {
+                    ops.push(COp { target: 2, inp: inp.clone() });
+                    ops.push(COp { target: tgt, inp });
+                } else {
+                    ops.push(COp { target: tgt, inp: inp.clone() });
+                    ops.push(COp { target: 2, inp });
+                }
+            }
+            Case { cfg: cfg_small(kind, n), other: Some(cfg_small(okind, n)), replay_in_new_thread: i % 3 == 0, clone_from_dirt: vec![], dirt_period_delta: 0, predecessor: vec![], ops, clone_at: 2 * (2 * n + 3) }
         },
         &check,
     );
